@@ -277,6 +277,63 @@ impl<'a> Gen<'a> {
         }
     }
 
+    /// Options of a live context are changed between two words (update_engine while idle,
+    /// same layout, same data directory): one or two of `flippable` are flipped.
+    fn live_option_flip(&mut self, cfg: &mut CfgSpec, flippable: &[u16]) {
+        for _ in 0..self.rng.range(1, 2) {
+            cfg.opts ^= *self.rng.pick(flippable);
+        }
+    }
+
+    /// A save that fails without killing the process (the process-killing ones are C10's).
+    fn failing_save(&mut self) -> WriteFault {
+        match self.rng.weighted(&[20, 20, 15, 25, 20]) {
+            0 => WriteFault::OpenFails(ErrKind::NotFound),
+            1 => WriteFault::OpenFails(ErrKind::Access),
+            2 => WriteFault::OpenFails(ErrKind::Rofs),
+            3 => WriteFault::FailsAfter(self.rng.next_u64() as u32, ErrKind::NoSpace),
+            _ => WriteFault::FailsAfter(self.rng.next_u64() as u32, ErrKind::Io),
+        }
+    }
+
+    /// The fault-injecting configuration of the history scenarios (C01, C02, C06): the same
+    /// histories over a user-data directory that cannot be written. Either the directory is
+    /// missing / read-only from before the first context (every save fails), or it goes away
+    /// half-way (`whole_run_only` = false) and may come back, or single saves fail (a fault
+    /// armed right before a commit, which is made a learning commit).
+    fn inject_save_faults(&mut self, ops: &mut Vec<Op>, whole_run_only: bool) {
+        let kind = if whole_run_only { self.rng.weighted(&[50, 0, 50]) } else { self.rng.weighted(&[30, 30, 40]) };
+        match kind {
+            0 => {
+                let st = if self.rng.coin() { DirState::Missing } else { DirState::ReadOnly };
+                ops.insert(0, Op::SetDir { st });
+            }
+            1 => {
+                let st = if self.rng.coin() { DirState::Missing } else { DirState::ReadOnly };
+                let at = self.rng.range(1, ops.len() as u64) as usize;
+                ops.insert(at.min(ops.len()), Op::SetDir { st });
+                if self.rng.pct(50) {
+                    let back = self.rng.range(at as u64 + 1, ops.len() as u64) as usize;
+                    ops.insert(back.min(ops.len()), Op::Heal);
+                }
+            }
+            _ => {
+                let mut out = Vec::with_capacity(ops.len() + 8);
+                for op in ops.drain(..) {
+                    match op {
+                        Op::Commit { h, .. } if self.rng.pct(50) => {
+                            let fault = self.failing_save();
+                            out.push(Op::Arm { fault });
+                            out.push(Op::Commit { h, idx: Idx::Other(self.rng.next_u64() as u8) });
+                        }
+                        o => out.push(o),
+                    }
+                }
+                *ops = out;
+            }
+        }
+    }
+
     // ------------------------------------------------------------------ C01 / C02
 
     fn gen_free_histories(&mut self, scenario: Scenario) -> Plan {
@@ -485,6 +542,12 @@ impl<'a> Gen<'a> {
                     since_term[h] += n as usize;
                 }
             }
+        }
+        // fault-injecting configuration: the same histories over a user-data directory that
+        // cannot be written (learning commits whose save fails must leave the context as
+        // usable and as self-consistent as any other commit)
+        if cfgs.iter().any(|c| c.is_phonetic() && c.has(PHON_SUG)) && self.rng.pct(12) {
+            self.inject_save_faults(&mut ops, false);
         }
         Plan { scenario, hash_seed: self.rng.next_u64(), prelude: Prelude::default(), ops }
     }
@@ -1013,6 +1076,12 @@ impl<'a> Gen<'a> {
                 3 => ops.push(Op::Drain { h: 0 }),
                 _ => {}
             }
+        }
+        // fault-injecting configuration: the directory cannot be written from the start, or
+        // single saves fail (the lock-step comparison pauses while the context knows a choice
+        // the disk does not hold; the session-flag clauses are judged throughout)
+        if cfg.is_phonetic() && cfg.has(PHON_SUG) && self.rng.pct(12) {
+            self.inject_save_faults(&mut ops, true);
         }
         Plan { scenario: Scenario::SessionReset, hash_seed: self.rng.next_u64(), prelude: Prelude::default(), ops }
     }
@@ -1559,6 +1628,14 @@ impl<'a> Gen<'a> {
         }
         let l = self.env.layout(cfg.layout).unwrap();
         let mut ops = vec![Op::Spawn { h: 0, cfg }];
+        // the options in force are those of the last update_engine: in a third of the runs
+        // the helpers are switched on and off between words of the live context
+        let live_updates = self.rng.pct(35);
+        let flippable: Vec<u16> = if reph {
+            vec![OLD_REPH, OLD_REPH, OLD_REPH, VOWEL, CHANDRA, KAR, NUMPAD, KAR_ORDER, SMART_QUOTE, ENGLISH]
+        } else {
+            vec![VOWEL, CHANDRA, KAR, OLD_REPH, VOWEL, CHANDRA, KAR, NUMPAD, SMART_QUOTE, ENGLISH]
+        };
         if reph && self.rng.pct(15) {
             // reph as the very first key
             if let Some(op) = self.fixed_key_for_value(l, fm::REPH) {
@@ -1641,6 +1718,10 @@ impl<'a> Gen<'a> {
                         let t = self.terminator(0, true);
                         ops.push(t);
                         since = 0;
+                        if live_updates && self.rng.pct(60) {
+                            self.live_option_flip(&mut cfg, &flippable);
+                            ops.push(Op::Update { h: 0, cfg });
+                        }
                     }
                 }
             }
@@ -1662,6 +1743,10 @@ impl<'a> Gen<'a> {
                     let t = self.terminator(0, true);
                     ops.push(t);
                     since = 0;
+                    if live_updates && self.rng.pct(60) {
+                        self.live_option_flip(&mut cfg, &flippable);
+                        ops.push(Op::Update { h: 0, cfg });
+                    }
                 }
                 _ => {
                     // a key the layout gives no value: keypad, missing or empty entries
@@ -1702,20 +1787,33 @@ impl<'a> Gen<'a> {
             })
         };
         let words = self.rng.range(1, 3);
-        for _ in 0..words {
+        let live_updates = self.rng.pct(35);
+        for wi in 0..words {
+            if wi > 0 && live_updates && self.rng.pct(70) {
+                // the other helpers are switched between two words, on both contexts alike
+                // (update_engine while idle); the option under test stays as it is
+                self.live_option_flip(&mut base, &[VOWEL, CHANDRA, KAR, OLD_REPH, NUMPAD, SMART_QUOTE, ENGLISH]);
+                ops.push(Op::Update { h: 0, cfg: base });
+                ops.push(Op::Update { h: 1, cfg: base.with(KAR_ORDER, true) });
+            }
             let syllables = self.rng.range(1, if self.tier == Tier::Quick { 5 } else { 6 });
             let mut abandoned = false;
             for si in 0..syllables {
-                if si > 0 && self.rng.pct(5) {
+                if self.rng.pct(if si > 0 { 5 } else { 3 }) {
                     // the word is abandoned while a sign is waiting in typewriter order: the
-                    // sign key on T only (nothing is shown for it), then the whole word is
-                    // deleted on both sides; nothing of it may survive into the next word
+                    // sign key on T only (nothing is shown for it; as the first key of a word
+                    // it waits over an empty text), then the word is ended on both sides by
+                    // ctrl-backspace, a commit or a finish request; nothing of it may survive
+                    // into the next word
                     let sgn = self.rng.pick(&left_signs).to_string();
                     if let Some(op) = key(self, 1, &sgn) {
                         ops.push(op);
                         ops.push(Op::Mark { tag: 2 });
-                        ops.push(Op::Bs { h: 0, ctrl: true });
-                        ops.push(Op::Bs { h: 1, ctrl: true });
+                        match self.rng.weighted(&[40, 35, 25]) {
+                            0 => { ops.push(Op::Bs { h: 0, ctrl: true }); ops.push(Op::Bs { h: 1, ctrl: true }); }
+                            1 => { ops.push(Op::Commit { h: 0, idx: Idx::Rel(0) }); ops.push(Op::Commit { h: 1, idx: Idx::Rel(0) }); }
+                            _ => { ops.push(Op::Finish { h: 0 }); ops.push(Op::Finish { h: 1 }); }
+                        }
                         ops.push(Op::Mark { tag: 1 });
                         abandoned = true;
                         break;
